@@ -24,6 +24,9 @@ pub enum Place {
     /// the remaining stage, which is tolerated; messages and wake-ups must not reach the module any more
     Start0,
     End,
+    /// the module shuts itself down after the first message it handles, with a restart 2.5 ms later, and the start-up
+    /// of that second incarnation panics (true: in its last stage, false: in its first)
+    Restart(bool),
     /// the j-th tick of the module's joined task (1-based)
     Task(u8),
 }
@@ -73,6 +76,8 @@ struct R {
     silent: bool,
     handled: u8,
     dead: bool,
+    /// how often the module was started (1 = simulation start, 2 = after its restart)
+    starts: u8,
 }
 
 impl R {
@@ -104,6 +109,7 @@ impl Module for R {
         }
         net::log("start", stage as i64, 0);
         if stage == 0 {
+            self.starts += 1;
             for (k, (t, _)) in self.timers.iter().enumerate() {
                 schedule_in(Message::default().kind(1).id(k as u16), du(*t as u128 * 1_000_000 + (k as u128 + 1) * 13_000));
             }
@@ -137,7 +143,9 @@ impl Module for R {
                 }));
             }
             if matches!(self.fault, Some(Fault { place: Place::Start0, .. })) && self.fault_here("at_sim_start (first stage)") {}
+            if self.starts == 2 && matches!(self.fault, Some(Fault { place: Place::Restart(false), .. })) && self.fault_here("at_sim_start of the restart (first stage)") {}
         } else if matches!(self.fault, Some(Fault { place: Place::Start, .. })) && self.fault_here("at_sim_start") {
+        } else if self.starts == 2 && matches!(self.fault, Some(Fault { place: Place::Restart(true), .. })) && self.fault_here("at_sim_start of the restart") {
         }
     }
     fn handle_message(&mut self, msg: Message) {
@@ -167,6 +175,10 @@ impl Module for R {
         if self.handled == 1 && matches!(&self.fault, Some(Fault { place: Place::End, shutdown_first: true, .. })) {
             net::log("shutdown", 0, 0);
             current().shutdown();
+        }
+        if self.handled == 1 && matches!(&self.fault, Some(Fault { place: Place::Restart(_), .. })) {
+            net::log("shutdown", 2, 0);
+            current().shutdow_and_restart_in(du(2_500_123));
         }
     }
     fn at_sim_end(&mut self) -> Result<(), RuntimeError> {
@@ -216,6 +228,7 @@ fn run_ring(case: &Case, silent: bool) -> Result<RunOut, Failure> {
                 silent,
                 handled: 0,
                 dead: false,
+                starts: 0,
             },
         );
     }
@@ -359,7 +372,7 @@ pub fn run_case(case: &Case) -> Result<(bool, Vec<&'static str>, bool), Failure>
                 );
             }
             // (the remaining start-up stage of a module that panicked in its first stage is still invoked: not an event it "receives")
-            let start0 = matches!(faults[i].as_ref().map(|f| &f.place), Some(Place::Start0));
+            let start0 = matches!(faults[i].as_ref().map(|f| &f.place), Some(Place::Start0) | Some(Place::Restart(false)));
             let later: Vec<&&Rec> = a[pos + 1..end_pos].iter().filter(|r| r.kind == "msg" || r.kind == "tick" || (r.kind == "start" && !start0)).collect();
             vensure!(
                 later.is_empty(),
@@ -368,7 +381,7 @@ pub fn run_case(case: &Case) -> Result<(bool, Vec<&'static str>, bool), Failure>
                 a[pos].now,
                 later.iter().map(|r| format!("{}@{}", r.kind, r.now)).collect::<Vec<_>>().join(" ")
             );
-            if matches!(faults[i].as_ref().map(|f| &f.place), Some(Place::Handle(_)) | Some(Place::Start) | Some(Place::Start0)) {
+            if matches!(faults[i].as_ref().map(|f| &f.place), Some(Place::Handle(_)) | Some(Place::Start) | Some(Place::Start0) | Some(Place::Restart(_))) {
                 vensure!(!real.active[i], "panicked-module-still-active", "module {path} panicked in a callback but is_active() is still true at the end");
             }
             continue;
@@ -448,6 +461,9 @@ pub fn run_case(case: &Case) -> Result<(bool, Vec<&'static str>, bool), Failure>
     if real.log.iter().any(|r| r.kind == "shutdown" && r.a == 1) && !triggered_task.is_empty() {
         labels.push("module-shut-down-after-its-joined-task-panicked");
     }
+    if triggered_cb.iter().any(|m| matches!(faults[*m].as_ref().map(|f| &f.place), Some(Place::Restart(_)))) {
+        labels.push("restarted-module-panics-in-its-start-up");
+    }
     if case.faults.iter().any(|f| f.flip && !matches!(f.place, Place::Task(_))) {
         labels.push("stereotype-switched-in-the-panicking-callback");
     }
@@ -472,7 +488,7 @@ impl Prop for C13 {
     fn rule() -> String {
         "generated fault placements in a ring of 2..6 modules (ping traffic with ttl started by self timers, latency channels, a joined ticker task \
          per module): 1..3 faults, each = module x {k-th handle_message call (before or after the handler's forwarding), last or first at_sim_start stage, \
-         at_sim_end, j-th tick of the joined task} x stereotype {HOST, SUBPROCESS} (optionally switched to that value inside the panicking callback itself), for at_sim_end optionally after the module shut itself down. Oracle: differential against the silent twin (the same model \
+         at_sim_end, the first or last start-up stage of the module's second incarnation (it shuts down after its first message and restarts 2.5 ms later), j-th tick of the joined task} x stereotype {HOST, SUBPROCESS} (optionally switched to that value inside the panicking callback itself), for at_sim_end optionally after the module shut itself down. Oracle: differential against the silent twin (the same model \
          where the module returns at the placement and ignores every later callback): the complete logs of all modules without a callback fault \
          are equal in both runs; a callback-panicked module logs no message / wake-up afterwards and is inactive; run() does not unwind; its \
          error lists exactly the non-caught panicking modules (PanicError) and the modules whose joined task panicked (JoinError::Paniced), or is \
@@ -500,6 +516,7 @@ impl Prop for C13 {
             1 => Just(Place::Start),
             1 => Just(Place::Start0),
             1 => Just(Place::End),
+            2 => any::<bool>().prop_map(Place::Restart),
             2 => (1u8..6).prop_map(Place::Task),
         ];
         let fault = (0u8..6, place, any::<bool>(), any::<bool>(), proptest::bool::weighted(0.25), any::<bool>(), any::<bool>()).prop_map(|(module, place, caught, after_work, flip, shutdown_first, shutdown_late)| Fault {
